@@ -307,6 +307,8 @@ def run_app(R, seed, aid, tier):
     duplicates(R, rng, seed, aid)
     qualified_in_message(R, rng, seed, aid)
     cosmetic_options(R, rng, seed, aid)
+    if aid % 4 == 0:
+        mixed_output(R, rng, seed, aid)
 
 
 def run_patterns(R, seed, aid, tier, spec, registered, perms, rng):
@@ -587,6 +589,75 @@ def cosmetic_options(R, rng, seed, aid):
                         R.violation('bare request naming %s ran %r, expected %r' % (name, calls, want), case, mech='cosmetic_option_dispatch:%s' % ('none' if not calls else 'wrong'))
                     else:
                         R.nontrivial('cosmetic_bare', kind, mname, bool(want))
+
+
+ODD_TEXT_NAMES = ('ge\x01t', 'get\x00', '\x0bget', 'get\x1f', 'get\ufffe', 'g\x7fet', 'get\x85', 'ge\u2028t', 'get\ud7ff', 'get<', 'get&amp;', ']]>get', 'get\t', 'get\r',
+                  'ge t', 'get\U0001f600', "ge't", 'ge"t', '%s', '%(x)s', '{get}')
+
+
+def mixed_output(R, rng, seed, aid):
+    """The name arrives by a protocol that carries any text (a JSON, YAML or msgpack key, a path segment) and the answer is written by an XML one:
+    an unregistered name runs nothing and is answered with the not-found client fault, whatever characters it is made of."""
+    import msgpack, yaml
+    from spyne import Application, Service, rpc, Integer
+    from spyne.protocol.json import JsonDocument
+    from spyne.protocol.yaml import YamlDocument
+    from spyne.protocol.msgpack import MessagePackDocument
+    from spyne.protocol.http import HttpRpc
+    from spyne.protocol.xml import XmlDocument
+    from spyne.protocol.soap import Soap11
+    from spyne.server.wsgi import WsgiApplication
+    from urllib.parse import quote
+    calls = []
+
+    class MixSvc(Service):
+        @rpc(_returns=Integer)
+        def get(ctx):
+            calls.append('get')
+            return 1
+    ins = {'json': (JsonDocument, lambda n: dict(method='POST', path='/', qs='', body=json.dumps({n: {}}).encode(), content_type='application/json')),
+           'yaml': (YamlDocument, lambda n: dict(method='POST', path='/', qs='', body=yaml.safe_dump({n: {}}, allow_unicode=True).encode(), content_type='text/yaml')),
+           'msgpack': (MessagePackDocument, lambda n: dict(method='POST', path='/', qs='', body=msgpack.packb({n: {}}, use_bin_type=True), content_type='application/x-msgpack')),
+           'httprpc': (HttpRpc, lambda n: dict(method='GET', path='/' + quote(n, safe=''), qs='', body=b'', content_type=None))}
+    outs = {'xml': XmlDocument, 'soap11': Soap11}
+    for ik, ok in [(i, o) for i in sorted(ins) for o in sorted(outs)]:
+        app = Application([MixSvc], M.TNS, name='C11Mix', in_protocol=ins[ik][0](), out_protocol=outs[ok]())
+        wsgi = WsgiApplication(app)
+        for name in ('get',) + ODD_TEXT_NAMES:
+            case = {'scenario': 'mixed_output', 'seed': seed, 'app': aid, 'in': ik, 'out': ok, 'name': name}
+            try:
+                req = ins[ik][1](name)
+            except Exception as e:
+                R.skip('name not expressible in %s: %s' % (ik, type(e).__name__))
+                continue
+            del calls[:]
+            R.evaluations += 1
+            R.count('mixed_output_calls')
+            env, inp = drive.make_environ(req['method'], req['path'], req['qs'], req['body'], req['content_type'])
+            w = drive.call_wsgi(wsgi, env, inp)
+            if name == 'get':
+                if w.exc is not None or calls != ['get'] or w.code != 200:
+                    R.violation('registered name through %s in, %s out: ran %r, answered %s (%r)' % (ik, ok, calls, w.status, w.exc), case, mech='mixed_output:registered_not_served')
+                continue
+            if w.exc is not None:
+                R.violation('unregistered name %r (%s in, %s out): %s escaped: %s' % (name, ik, ok, type(w.exc).__name__, str(w.exc)[:120]), case,
+                            mech='mixed_output:escape:%s' % type(w.exc).__name__)
+                continue
+            if calls:
+                R.violation('unregistered name %r (%s in, %s out) ran %r' % (name, ik, ok, calls), case, mech='mixed_output:dispatched')
+                continue
+            f = M.decode_fault(ok, w.body)
+            code = (f[0] if f else None) or ''
+            code = (code.decode() if isinstance(code, bytes) else code).split(':')[-1]
+            if not (code == 'Client' or code.startswith('Client.')):
+                R.violation('unregistered name %r (%s in, %s out) answered with %r / %s, not a client fault: %s' % (name, ik, ok, code, w.status, w.body[:200]), case,
+                            mech='mixed_output:not_client_fault:%s' % ok)
+                continue
+            if ok == 'xml' and 'ResourceNotFound' in code and w.code != 404:
+                R.violation('not-found fault over HTTP answered %s' % w.status, case, mech='mixed_output:not_found_status')
+                continue
+            R.count('mixed_output_%s' % ('notfound' if 'ResourceNotFound' in code else 'other_client_fault'))
+            R.nontrivial('mixed_output', ik, ok, name.isprintable())
 
 
 def duplicates(R, rng, seed, aid):
